@@ -125,6 +125,9 @@ class BackendVSA(Backend):
         if isinstance(e, numbers.Number):
             return e
         if isinstance(e, StridedInterval):
+            if e._reversed:
+                # an annotation cannot carry a pending (lazy) byte reversal: carry it out
+                e = e._reverse()
             if e.is_top:
                 return claripy.TSI(e.bits, explicit_name=e.name)
             if e.is_empty:
